@@ -295,10 +295,10 @@ def coq_op(op, da):
     return "%s %s %d" % (op[0], p, op[2])
 
 
-def coq_case(before, op, da, acc, after, pa, pb):
+def coq_case(tb, op, da, acc, ta, pa, pb):
+    """tb, ta = numbers of the trees in the scratch tree library (Definition t<k>)"""
     b = lambda x: "true" if x else "false"      # noqa: E731
-    return ("{| c_before := %s; c_op := %s; c_accepted := %s; c_after := %s; c_pyA := %s; c_pyB := %s |}"
-            % (coq_tree(before), coq_op(op, da), b(acc), coq_tree(after), b(pa), b(pb)))
+    return "mk t%d (%s) %s t%d %s %s" % (tb, coq_op(op, da), b(acc), ta, b(pa), b(pb))
 
 
 def containers(t, path=()):
@@ -311,12 +311,16 @@ def containers(t, path=()):
             yield from containers(n[2], path + (i,))
 
 
-def enumerate_ops(t):
+def enumerate_ops(t, all_targets=True):
+    """every transformation on every node / range of siblings; beyond the first step the four loop
+    transformations are only tried on loops and directives (kernels, halo exchanges and global
+    sums are refused the same way at every depth)"""
     ops = []
     for path, kids in containers(t):
         for i in range(len(kids)):
-            for name in ("OColour", "OOmpParDo", "OOmpDo", "OAccLoop"):
-                ops.append((name, path, i))
+            if all_targets or kids[i][0] in ("L", "D"):
+                for name in ("OColour", "OOmpParDo", "OOmpDo", "OAccLoop"):
+                    ops.append((name, path, i))
             for n in range(1, len(kids) - i + 1):
                 ops.append(("OOmpParallel", path, i, n))
                 ops.append(("OAccParallel", path, i, n))
@@ -359,9 +363,15 @@ class Explorer:
     def __init__(self, ctx, impl, corpus):
         self.ctx, self.impl, self.corpus = ctx, impl, corpus
         self.cases = {}            # coq string -> python description
+        self.tree_ids = {}         # abstract tree -> number in the scratch tree library
         self.failures = {}         # key -> (what, replay dict)
         self.premise_bad = []
         self.other_exc = {}
+
+    def tid(self, t):
+        if t not in self.tree_ids:
+            self.tree_ids[t] = len(self.tree_ids)
+        return self.tree_ids[t]
 
     def rebuild(self, spec, hist):
         psy, sched = self.corpus.build(spec)
@@ -404,11 +414,11 @@ class Explorer:
                 before = impl.tree(sched)
                 va0, vb0 = impl.violations(sched)
                 na0, nb0 = len(va0), len(vb0)
-                for op in enumerate_ops(before):
+                for op in enumerate_ops(before, all_targets=(depth == 0)):
                     acc, da, exc = impl.apply(sched, op)
                     after = impl.tree(sched)
                     va, vb = impl.violations(sched)
-                    cs = coq_case(before, op, da, acc, after, not va, not vb)
+                    cs = coq_case(self.tid(before), op, da, acc, self.tid(after), not va, not vb)
                     ctx.count(cs, nontrivial=acc)
                     ctx.hist("op", "%s:%s" % (op[0], "accepted" if acc else (exc or "refused")))
                     ctx.hist("history_length", depth + 1)
@@ -440,26 +450,38 @@ class Explorer:
 
 
 def gen_specs(ctx, rng):
-    specs = []
-    singles = [k for k in KERNELS]
-    for k in singles:
-        for dm in ((False, True) if ctx.thorough or k in ("k_inc_w0", "k_rinc_w0", "k_op33_inc") else (rng.random() < 0.5,)):
-            specs.append({"kind": "gen", "calls": [k], "dm": dm})
+    """quick: a fixed core (INC, READINC, operator+INC, inter-grid, WRITE on a continuous space) plus a
+    seeded sample of the other kernels, one multi-kernel invoke and one real test algorithm;
+    thorough: every kernel with and without distributed memory, many multi-kernel invokes, all files"""
+    singles = list(KERNELS)
     multi = [["k_inc_w0", "setval_c"], ["k_rinc_w0", "k_inc_w1"], ["X_innerproduct_Y", "k_wr_w3"],
-             ["k_rw_w3", "inc_X_plus_Y", "k_inc_any"], ["sum_X", "k_prol_w3"]]
-    pool = singles + list(BUILTINS)
-    for _ in range(ctx.pick(3, 14)):
-        multi.append([rng.choice(pool) for _ in range(rng.choice([2, 2, 3]))])
-    for calls in multi:
-        specs.append({"kind": "gen", "calls": calls, "dm": rng.random() < 0.5})
-    files = [("1_single_invoke.f90", 0), ("14.15_halo_readinc.f90", 0), ("15.14.4_builtin_and_normal_kernel_invoke.f90", 0),
-             ("22.0_intergrid_prolong.f90", 0), ("25.0_domain.f90", 0)]
+             ["k_rw_w3", "inc_X_plus_Y", "k_inc_any"], ["sum_X", "k_wr_w0"]]
+    pool = [k for k in singles if k not in ("k_prol_w3", "k_prol_w2", "k_restr")] + list(BUILTINS)
+    files = ["1_single_invoke.f90", "14.15_halo_readinc.f90", "15.14.4_builtin_and_normal_kernel_invoke.f90",
+             "22.0_intergrid_prolong.f90", "25.0_domain.f90", "4.6_multikernel_invokes.f90", "10_operator.f90",
+             "15.9.1_X_innerproduct_Y_builtin.f90", "4.8_multikernel_invokes.f90"]
+    files = [f for f in files if (core.REPO / TESTFILES / f).exists()]
+    specs = []
     if ctx.thorough:
-        files += [("4.6_multikernel_invokes.f90", 0), ("10_operator.f90", 0), ("15.9.1_X_innerproduct_Y_builtin.f90", 0),
-                  ("4.8_multikernel_invokes.f90", 0)]
-    for f, idx in files:
-        if (core.REPO / TESTFILES / f).exists():
-            specs.append({"kind": "file", "file": f, "invoke": idx, "dm": rng.random() < 0.5})
+        for k in singles:
+            for dm in (False, True):
+                specs.append({"kind": "gen", "calls": [k], "dm": dm})
+        for _ in range(14):
+            multi.append([rng.choice(pool) for _ in range(rng.choice([2, 2, 3]))])
+        for calls in multi:
+            specs.append({"kind": "gen", "calls": calls, "dm": rng.random() < 0.5})
+        for f in files:
+            specs.append({"kind": "file", "file": f, "invoke": 0, "dm": rng.random() < 0.5})
+    else:
+        core_k = [("k_inc_w0", False), ("k_rinc_w0", True), ("k_op33_inc", False), ("k_prol_w3", False),
+                  ("k_wr_w0", False), ("k_inc_any", False)]
+        rest = [k for k in singles if k not in {c for c, _ in core_k}]
+        for k, dm in core_k + [(k, rng.random() < 0.5) for k in rng.sample(rest, 1)]:
+            specs.append({"kind": "gen", "calls": [k], "dm": dm})
+        if rng.random() < 0.5:
+            specs.append({"kind": "gen", "calls": rng.choice(multi), "dm": rng.random() < 0.5})
+        else:
+            specs.append({"kind": "file", "file": rng.choice(files), "invoke": 0, "dm": rng.random() < 0.5})
     return specs
 
 
@@ -495,6 +517,91 @@ def replay_witnesses(ctx, ex):
                 ex.failures.setdefault(key, (what, {"spec": spec, "history": [list(o) for o in hist[:k + 1]],
                                                     "tree_after": sched.view(colour=False),
                                                     "replay": "./check C23 --replay <this file>"}))
+
+
+def build_tree_library(ctx, tree_ids):
+    """every distinct abstract tree is defined once (Definition t<k>) in small files compiled in
+    parallel into the scratch directory; the case shards refer to the trees by name.  (coqc spends
+    ~1 ms per constructor of a literal, so repeating the trees in every case is what costs.)"""
+    import subprocess
+    d = ctx.scratch / "cases"
+    d.mkdir(exist_ok=True)
+    trees = sorted(tree_ids.items(), key=lambda kv: kv[1])
+    names, procs, per = [], [], 150
+    jobs = int(os.environ.get("VERIF_JOBS", "4"))
+
+    def reap(all_):
+        while procs and (all_ or len(procs) >= jobs):
+            f, p = procs.pop(0)
+            try:
+                out, _ = p.communicate(timeout=3600)
+            except subprocess.TimeoutExpired:
+                p.kill()
+                out = "[timeout]"
+            if p.returncode != 0:
+                raise RuntimeError("coqc failed on %s:\n%s" % (f, out[-2000:]))
+    for k in range(0, len(trees), per):
+        name = "C23T_%d" % (k // per)
+        body = ["From Coq Require Import List.", "Import ListNotations.", "From PV Require Import C23.Model."]
+        local = {}          # top-level child nodes shared by the trees of this chunk
+        for t, i in trees[k:k + per]:
+            for n in t:
+                if n not in local:
+                    local[n] = "n%d_%d" % (k // per, len(local))
+                    body.append("Definition %s : node := %s." % (local[n], coq_node(n)))
+            body.append("Definition t%d : tree := %s." % (i, core.coq_list(local[n] for n in t)))
+        (d / (name + ".v")).write_text("\n".join(body) + "\n")
+        names.append(name)
+        reap(False)
+        procs.append((name, subprocess.Popen(["coqc", "-Q", str(core.COQ), core.LOGICAL, "-w",
+                                              "-notation-overridden,-deprecated,-ambiguous-paths", name + ".v"],
+                                             cwd=d, stdout=subprocess.PIPE, stderr=subprocess.STDOUT, text=True)))
+    reap(True)
+    return per
+
+
+def eval_cases(ctx, per, check_fn, cases, shard=600):
+    """indices of the cases on which `check_fn : case -> bool` is false.  Like Ctx.coq_eval_failing, but
+    every shard imports only the tree-library chunks it refers to."""
+    import re
+    import subprocess
+    d = ctx.scratch / "cases"
+    jobs = int(os.environ.get("VERIF_JOBS", "4"))
+    procs, failing = [], []
+    eval_cases.count = getattr(eval_cases, "count", 0) + 1
+
+    def reap(all_):
+        while procs and (all_ or len(procs) >= jobs):
+            k, f, p = procs.pop(0)
+            try:
+                out, _ = p.communicate(timeout=3600)
+            except subprocess.TimeoutExpired:
+                p.kill()
+                out = "[timeout]"
+            m = re.search(r"@@BAD-BEGIN(.*)@@BAD-END", out, re.S)
+            if p.returncode != 0 or not m:
+                raise RuntimeError("coqc failed on %s:\n%s" % (f, out[-3000:]))
+            txt = m.group(1).split(":=", 1)[-1].rsplit(":", 1)[0]
+            failing.extend(k + int(num) for num in re.findall(r"\d+", txt))
+    for k in range(0, len(cases), shard):
+        chunk = cases[k:k + shard]
+        need = sorted({int(t) // per for c in chunk for t in re.findall(r"\bt(\d+)\b", c)})
+        name = "C23C_%d_%d" % (eval_cases.count, k // shard)
+        body = [HEADER, "Require Import Coq.Lists.List Coq.NArith.NArith. Import ListNotations."]
+        body += ["Require Import C23T_%d." % n for n in need]
+        body += ["Definition mk := Build_case.",
+                 "Definition the_cases : list case := [\n%s\n]." % ";\n".join(chunk),
+                 "Fixpoint failing_ (i : N) (l : list case) : list N := match l with [] => [] "
+                 "| c :: r => if (%s) c then failing_ (N.succ i) r else i :: failing_ (N.succ i) r end." % check_fn,
+                 "Definition bad_ := Eval vm_compute in failing_ 0%N the_cases.",
+                 'Goal True. idtac "@@BAD-BEGIN". Abort.', "Print bad_.", 'Goal True. idtac "@@BAD-END". Abort.']
+        (d / (name + ".v")).write_text("\n".join(body) + "\n")
+        reap(False)
+        procs.append((k, name, subprocess.Popen(
+            ["coqc", "-Q", str(core.COQ), core.LOGICAL, "-w", "-notation-overridden,-deprecated,-ambiguous-paths",
+             name + ".v"], cwd=d, stdout=subprocess.PIPE, stderr=subprocess.STDOUT, text=True)))
+    reap(True)
+    return sorted(failing)
 
 
 def run(ctx):
@@ -539,7 +646,7 @@ def run(ctx):
     ex = Explorer(ctx, impl, corpus)
     rng = ctx.rng("specs")
     specs = gen_specs(ctx, rng)
-    maxlen, width = ctx.pick(3, 5), ctx.pick(10, 40)
+    maxlen, width = ctx.pick(3, 5), ctx.pick(3, 4)
     nbuilt = 0
     for spec in specs:
         try:
@@ -559,22 +666,31 @@ def run(ctx):
         ctx.sample(d)
     # ---- 4. model vs implementation
     cases = list(ex.cases)
-    failing = ctx.coq_eval_failing(HEADER, "case", "case_ok inc_accesses disc_shortcut", cases, shard=250) if ok or \
-        (core.COQ / "C23" / "Gen.vo").exists() else list(range(len(cases)))
-    stricter = []
-    refused = [c for c in cases if ex.cases[c]["accepted"] is False]
-    if not failing and refused:
-        stricter = ctx.coq_eval_failing(HEADER, "case", "case_strict inc_accesses disc_shortcut", refused, shard=400)
+    per = build_tree_library(ctx, ex.tree_ids)
+    import time as _t
+    ctx.log("exploration done: invokes=%d step cases=%d distinct trees=%d (python cpu %.1fs)"
+            % (nbuilt, len(cases), len(ex.tree_ids), _t.process_time()))
+    # one pass with the strict relation (model refuses whenever the implementation does); only the cases
+    # failing it are re-evaluated with the lenient relation (implementation accepts => model agrees)
+    strict_bad = eval_cases(ctx, per, "case_strict inc_accesses disc_shortcut", cases)
+    failing, stricter = [], []
+    if strict_bad:
+        sub = [cases[i] for i in strict_bad]
+        bad2 = set(eval_cases(ctx, per, "case_ok inc_accesses disc_shortcut", sub))
+        failing = [strict_bad[j] for j in range(len(sub)) if j in bad2]
+        stricter = [strict_bad[j] for j in range(len(sub)) if j not in bad2]
     ctx.cov["disagreements_checked"] = len(failing)
     ctx.notes["implementation_stricter_than_model"] = len(stricter)
     if stricter:
-        ctx.notes["first_stricter_case"] = ex.cases[refused[stricter[0]]]
+        ctx.notes["first_stricter_case"] = ex.cases[cases[stricter[0]]]
     ctx.log("invokes=%d step cases=%d model/impl disagreements=%d impl-stricter=%d property failures (keys)=%s"
             % (nbuilt, len(cases), len(failing), len(stricter), sorted(ex.failures)))
     # ---- 5. verdict
     unlisted = 0
     for key in sorted(ex.failures):
         what, rp = ex.failures[key]
+        if rp["spec"].get("kind") == "gen":
+            rp = dict(rp, kernel_metadata={k: KERNELS[k] for k in rp["spec"]["calls"] if k in KERNELS})
         if ctx.finding(key, what, dict(rp, property="C23")):
             unlisted += 1
     for pb in ex.premise_bad[:3]:
@@ -582,8 +698,15 @@ def run(ctx):
                        "detail": pb}, no_input=True)
     if unlisted == 0 and (failing or not ok or tr_err):
         first = ex.cases[cases[failing[0]]] if failing else None
-        shown = ctx.coq_eval_show(HEADER, ["step inc_accesses disc_shortcut (c_op (%s)) (c_before (%s))"
-                                           % (cases[failing[0]], cases[failing[0]])]) if failing else []
+        shown = []
+        if failing:
+            c0 = cases[failing[0]]
+            import re as _re
+            hdr = HEADER + "\n" + "".join("Require Import C23T_%d.\n" % n for n in
+                                           sorted({int(t) // per for t in _re.findall(r"\bt(\d+)\b", c0)})) + \
+                "Definition mk := Build_case."
+            shown = ctx.coq_eval_show(hdr, ["step inc_accesses disc_shortcut (c_op (%s)) (c_before (%s))" % (c0, c0),
+                                            "c_after (%s)" % c0])
         ctx.violation({"property": "C23",
                        "broken": ("translator props/C23/translate.py no longer recognises the source: " + tr_err) if tr_err
                        else ("correspondence C23.Model.step = implementation" if failing
